@@ -80,44 +80,8 @@ func runC17(c *Ctx) error {
 	for i := 0; i < n; i++ {
 		// ---- struct input: objects repeated in a slice, a map, nested by value and by pointer, plus the outer object's own group
 		{
-			var s WGS
-			var exps []expE
-			nl := r.Range(0, 3)
-			cell := fmt.Sprintf("struct:l%d", nl)
-			for k := 0; k < nl; k++ {
-				p := randWG(r)
-				s.L = append(s.L, p.wg())
-				exps = append(exps, groupExps(p, fmt.Sprintf("WGS.L[%d]", k))...)
-			}
-			if r.Bool() {
-				p := randWG(r)
-				s.M = map[string]WG{"k": p.wg()}
-				if !(p == wgPattern{}) { // a zero struct value is still validated inside a map
-				}
-				exps = append(exps, groupExps(p, "WGS.M[k]")...)
-				cell += ":map"
-			}
-			pn := randWG(r)
-			s.N = pn.wg()
-			if pn != (wgPattern{}) { // a zero struct under exist is skipped silently
-				exps = append(exps, groupExps(pn, "WGS.N")...)
-				cell += ":nested"
-			}
-			if r.Bool() {
-				pp := randWG(r)
-				v := pp.wg()
-				s.P = &v
-				exps = append(exps, groupExps(pp, "WGS.P")...)
-				cell += ":ptr"
-			}
-			// the outer object's own either group (no botheq members there)
-			po := randWG(r)
-			s.X, s.Y = po.x, po.y
-			if po.eitherViolated() {
-				exps = append(exps, expE{"G", "", `either:"WGS.X", "WGS.Y"`})
-			}
-			cell += fmt.Sprintf(":viol%d", len(exps))
-			emit(&walkCall{Entry: "struct", Src: &s}, exps, cell)
+			src, exps, cell := wgsCase(r)
+			emit(&walkCall{Entry: "struct", Src: src}, exps, cell)
 			w.Count("entry.struct")
 		}
 		// ---- int-keyed map of objects, four-member botheq, botheq over slices / maps / structs
@@ -229,49 +193,91 @@ func runC17(c *Ctx) error {
 // wgs2Case: one WGS2 object (int-keyed map of objects, a four-member botheq group, botheq over slices / maps / structs)
 // with the group clauses it must produce
 func wgs2Case(r *gal.Rng) (interface{}, []expE, string) {
-			var s WGS2
-			var exps []expE
-			cell := "wgs2"
-			nk := r.Range(0, 2)
-			if nk > 0 {
-				s.MI = map[int]WG{}
-			}
-			for k := 0; k < nk; k++ {
-				p := randWG(r)
-				s.MI[k+3] = p.wg()
-				exps = append(exps, groupExps(p, fmt.Sprintf("WGS2.MI[%d]", k+3))...)
-			}
-			cell += fmt.Sprintf(":mi%d", nk)
-			four := [][4]int{{0, 0, 0, 0}, {2, 2, 2, 2}, {2, 9, 2, 2}, {2, 2, 9, 2}, {2, 2, 2, 9}, {2, 9, 2, 9}, {0, 2, 0, 0}, {9, 2, 2, 2}}[r.Intn(8)]
-			s.A, s.B, s.C, s.D = four[0], four[1], four[2], four[3]
-			if !(four[0] == four[1] && four[1] == four[2] && four[2] == four[3]) {
-				exps = append(exps, expE{"G", "", `botheq:"WGS2.A", "WGS2.B", "WGS2.C", "WGS2.D"`})
-				cell += ":four-differ"
-			}
-			sl := [][2][]string{{nil, nil}, {{"a", "b"}, {"a", "b"}}, {{"a", "b"}, {"a", "c"}}, {{"a"}, {"a", "a"}}, {nil, {}}, {{}, {}}}[r.Intn(6)]
-			s.S1, s.S2 = sl[0], sl[1]
-			if !reflect.DeepEqual(sl[0], sl[1]) {
-				exps = append(exps, expE{"G", "", `botheq:"WGS2.S1", "WGS2.S2"`})
-				cell += ":slices-differ"
-			}
-			mp := [][2]map[string]int{{nil, nil}, {{"a": 1}, {"a": 1}}, {{"a": 1}, {"a": 2}}, {{"a": 1}, {"b": 1}}, {nil, {}}}[r.Intn(5)]
-			s.M1, s.M2 = mp[0], mp[1]
-			if !reflect.DeepEqual(mp[0], mp[1]) {
-				exps = append(exps, expE{"G", "", `botheq:"WGS2.M1", "WGS2.M2"`})
-				cell += ":maps-differ"
-			}
-			st := [][2]WG1{{{}, {}}, {{X: "a", A: 1}, {X: "a", A: 1}}, {{X: "a", A: 1}, {X: "a", A: 2}}}[r.Intn(3)]
-			s.E1, s.E2 = st[0], st[1]
-			if st[0] != st[1] {
-				exps = append(exps, expE{"G", "", `botheq:"WGS2.E1", "WGS2.E2"`})
-				cell += ":structs-differ"
-			}
-			pa, pb2, pc := "same", "same", "other"
-			pt := [][2]*string{{nil, nil}, {&pa, &pb2}, {&pa, &pa}, {&pa, &pc}, {&pa, nil}}[r.Intn(5)]
-			s.P1, s.P2 = pt[0], pt[1]
-			if !reflect.DeepEqual(pt[0], pt[1]) {
-				exps = append(exps, expE{"G", "", `botheq:"WGS2.P1", "WGS2.P2"`})
-				cell += ":pointers-differ"
-			}
-			return &s, exps, cell
+	var s WGS2
+	var exps []expE
+	cell := "wgs2"
+	nk := r.Range(0, 2)
+	if nk > 0 {
+		s.MI = map[int]WG{}
+	}
+	for k := 0; k < nk; k++ {
+		p := randWG(r)
+		s.MI[k+3] = p.wg()
+		exps = append(exps, groupExps(p, fmt.Sprintf("WGS2.MI[%d]", k+3))...)
+	}
+	cell += fmt.Sprintf(":mi%d", nk)
+	four := [][4]int{{0, 0, 0, 0}, {2, 2, 2, 2}, {2, 9, 2, 2}, {2, 2, 9, 2}, {2, 2, 2, 9}, {2, 9, 2, 9}, {0, 2, 0, 0}, {9, 2, 2, 2}}[r.Intn(8)]
+	s.A, s.B, s.C, s.D = four[0], four[1], four[2], four[3]
+	if !(four[0] == four[1] && four[1] == four[2] && four[2] == four[3]) {
+		exps = append(exps, expE{"G", "", `botheq:"WGS2.A", "WGS2.B", "WGS2.C", "WGS2.D"`})
+		cell += ":four-differ"
+	}
+	sl := [][2][]string{{nil, nil}, {{"a", "b"}, {"a", "b"}}, {{"a", "b"}, {"a", "c"}}, {{"a"}, {"a", "a"}}, {nil, {}}, {{}, {}}}[r.Intn(6)]
+	s.S1, s.S2 = sl[0], sl[1]
+	if !reflect.DeepEqual(sl[0], sl[1]) {
+		exps = append(exps, expE{"G", "", `botheq:"WGS2.S1", "WGS2.S2"`})
+		cell += ":slices-differ"
+	}
+	mp := [][2]map[string]int{{nil, nil}, {{"a": 1}, {"a": 1}}, {{"a": 1}, {"a": 2}}, {{"a": 1}, {"b": 1}}, {nil, {}}}[r.Intn(5)]
+	s.M1, s.M2 = mp[0], mp[1]
+	if !reflect.DeepEqual(mp[0], mp[1]) {
+		exps = append(exps, expE{"G", "", `botheq:"WGS2.M1", "WGS2.M2"`})
+		cell += ":maps-differ"
+	}
+	st := [][2]WG1{{{}, {}}, {{X: "a", A: 1}, {X: "a", A: 1}}, {{X: "a", A: 1}, {X: "a", A: 2}}}[r.Intn(3)]
+	s.E1, s.E2 = st[0], st[1]
+	if st[0] != st[1] {
+		exps = append(exps, expE{"G", "", `botheq:"WGS2.E1", "WGS2.E2"`})
+		cell += ":structs-differ"
+	}
+	pa, pb2, pc := "same", "same", "other"
+	pt := [][2]*string{{nil, nil}, {&pa, &pb2}, {&pa, &pa}, {&pa, &pc}, {&pa, nil}}[r.Intn(5)]
+	s.P1, s.P2 = pt[0], pt[1]
+	if !reflect.DeepEqual(pt[0], pt[1]) {
+		exps = append(exps, expE{"G", "", `botheq:"WGS2.P1", "WGS2.P2"`})
+		cell += ":pointers-differ"
+	}
+	return &s, exps, cell
+}
+
+// wgsCase: one WGS object (WG objects in a slice, a map, nested by value and by pointer, and its own either group)
+func wgsCase(r *gal.Rng) (interface{}, []expE, string) {
+	var s WGS
+	var exps []expE
+	nl := r.Range(0, 3)
+	cell := fmt.Sprintf("struct:l%d", nl)
+	for k := 0; k < nl; k++ {
+		p := randWG(r)
+		s.L = append(s.L, p.wg())
+		exps = append(exps, groupExps(p, fmt.Sprintf("WGS.L[%d]", k))...)
+	}
+	if r.Bool() {
+		p := randWG(r)
+		s.M = map[string]WG{"k": p.wg()}
+		if !(p == wgPattern{}) { // a zero struct value is still validated inside a map
+		}
+		exps = append(exps, groupExps(p, "WGS.M[k]")...)
+		cell += ":map"
+	}
+	pn := randWG(r)
+	s.N = pn.wg()
+	if pn != (wgPattern{}) { // a zero struct under exist is skipped silently
+		exps = append(exps, groupExps(pn, "WGS.N")...)
+		cell += ":nested"
+	}
+	if r.Bool() {
+		pp := randWG(r)
+		v := pp.wg()
+		s.P = &v
+		exps = append(exps, groupExps(pp, "WGS.P")...)
+		cell += ":ptr"
+	}
+	// the outer object's own either group (no botheq members there)
+	po := randWG(r)
+	s.X, s.Y = po.x, po.y
+	if po.eitherViolated() {
+		exps = append(exps, expE{"G", "", `either:"WGS.X", "WGS.Y"`})
+	}
+	cell += fmt.Sprintf(":viol%d", len(exps))
+	return &s, exps, cell
 }
